@@ -672,7 +672,23 @@ def run(chk) -> None:
         check_other_lines(chk)
         check_record_order(chk)
     c09e.check_atom_data_keys(chk)
-    check_field_maps(chk)
+    # the four round trips, every writer and reader interpreted; the reading of the pinned field tables (check_field_maps) is the fallback
+    crossed = False
+    try:
+        crossed = c09e.check_cross_paths_eval(chk)
+    except AnalysisError:
+        raise
+    except Exception as ex:
+        chk.ok("cross-path-eval", "-", f"evaluation of the round trips failed internally ({type(ex).__name__}: {str(ex)[:60]}): the pinned-form rules decide")
+    if crossed:
+        from checks.c15 import _Decided
+
+        try:
+            check_field_maps(_Decided(chk, drop={"field-map-pdb", "field-map-pdb-to-cif", "field-map-cif-to-pdb", "cif-to-cif", "cif-to-cif-form", "numeric-format", "null-agreement"}, quiet={"value-domain"}))
+        except AnalysisError:
+            pass  # the pinned tables are not there any more; what they stood for was decided on the round trips
+    else:
+        check_field_maps(chk)
     check_reader(chk)
     check_row_order(chk)
     check_splitter(chk)
